@@ -337,6 +337,20 @@ class Ranges:
             if tr and (r[0] < tr[0] or r[1] > tr[1]):
                 return None
             return r
+        if t == "proj" and v[2] and v[2][-1] == "f0" and any(str(x).startswith("as:") for x in v[2]):
+            # the payload of `Some(..)` / `Continue(..)`: an element picked out of a literal range
+            inner = v[1]
+            if inner[0] == "call" and inner[1].endswith("Try>::branch") and inner[2]:
+                inner = inner[2][0]
+            if inner[0] == "call" and re.search(r"Iterator::(find|min|max|next|last|nth|find_map)$|DoubleEndedIterator::(next_back|rfind)$", inner[1]) and inner[2]:
+                return self.range_elem(inner[2][0], B, depth + 1)
+            return None
+        if t == "proj" and v[2] == ("*",):
+            return self.rng(v[1], B, depth + 1)
+        if t == "param" and B is not None and "::{closure#" in (getattr(B, "path", "") or "") and v[1] >= 2:
+            r = self.closure_param_range(B.path, v[1])
+            if r:
+                return r
         if t in ("param", "local"):
             ty = None
             if B is not None:
@@ -356,6 +370,57 @@ class Ranges:
                         return (min(vals), max(vals))
             return ty_range(ty) if ty in ("u8", "bool") else None
         return None
+
+
+def _range_elem(self, v, B, depth=0):
+    """interval of the elements of `lo..hi` written as a range aggregate (through `&`, `&mut`, by_ref)"""
+    while v and v[0] == "ref":
+        v = v[1]
+    if not v or v[0] != "agg" or not str(v[1]).endswith("ops::range::Range") or len(v[3]) != 2:
+        return None
+    lo, hi = self.rng(v[3][0], B, depth + 1), self.rng(v[3][1], B, depth + 1)
+    if hi is None:
+        return None
+    lo_ = lo[0] if lo else 0
+    if lo is None:
+        # an unknown start of an unsigned cursor: at least 0
+        return (0, hi[1] - 1)
+    return (lo_, hi[1] - 1)
+
+
+def _closure_param_range(self, path, index):
+    """interval of parameter #index of a closure that is only ever applied by an iterator adaptor to the elements of a literal range"""
+    key = (path, index)
+    if key in self._summ:
+        return self._summ[key]
+    self._summ[key] = None
+    parent = re.sub(r"::\{closure#\d+\}$", "", path)
+    f = self.F.fns.get(parent)
+    if not f or "mir" not in f or index != 2:
+        return None
+    from .mirutil import Body
+    B = Body(f)
+    found = []
+    for bi, b in enumerate(B.blocks):
+        t = b["term"]
+        if t["k"] != "Call" or not t.get("args"):
+            continue
+        trs = [B.trace(a) for a in t["args"]]
+        if not any(tr and tr[0] == "agg" and tr[1] == path for tr in trs):
+            continue
+        c = t.get("resolved") or t.get("callee") or ""
+        if not re.search(r"Iterator::(find|any|all|position|filter|map|for_each|filter_map|take_while|skip_while|find_map|inspect)$", c):
+            return None
+        found.append(self.range_elem(trs[0], B))
+    if not found or any(r is None for r in found):
+        return None
+    r = (min(x[0] for x in found), max(x[1] for x in found))
+    self._summ[key] = r
+    return r
+
+
+Ranges.range_elem = _range_elem
+Ranges.closure_param_range = _closure_param_range
 
 
 def same_value(a, b):
@@ -828,6 +893,14 @@ class Discharger:
             why = self.first_of_nonempty(B, B.trace(t["args"][0]), s["fn"])
             if why:
                 return "D7", why
+        m_ = re.match(r"^<([iu]\d+) as core::ops::bit::Sh[lr]<&?&?([iu]\d+)>>::sh[lr]$", c)
+        if m_ and len(t.get("args", [])) == 2:
+            # `1 << *n` written through the operator trait (the amount is a reference): same condition as the built-in shift
+            bits = ty_bits(m_.group(1))
+            rb = self.R.rng(B.trace(t["args"][1]), B)
+            if rb and bits and 0 <= rb[0] and rb[1] < bits:
+                return "D3", f"shift amount in [{rb[0]},{rb[1]}] < {bits}"
+            return None
         if re.search(r"<impl (i|u)\d+>::(checked)_(div|rem)", c):
             return "D5", "checked division returns None on a zero divisor"
         if re.search(r"<impl (i|u)\d+>::(wrapping|overflowing|saturating)?_?(div|rem|div_euclid|rem_euclid)$", c) and len(t["args"]) == 2:
